@@ -363,6 +363,11 @@ Proof.
     cbn [r_dealer r_set_dealer]. eapply mregs_ext; [exact R|exact (i_regs r I)].
 Qed.
 
+Theorem step_attached_proof : forall r o, inv18 r ->
+    inv18 (fst (step r o)) /\
+    map s_id (r_clients (fst (step r o))) = att (map s_id (r_clients r)) (step_events o (snd (step r o))).
+Proof. intros r o I. destruct (step_tracks r o I) as (A & _ & B). exact (conj A B). Qed.
+
 (** ** Histories *)
 Lemma run_tracks : forall ops r, inv18 r ->
     inv18 (fst (run r ops)) /\ r_metaprocs (fst (run r ops)) = r_metaprocs r /\
